@@ -459,4 +459,14 @@ pub fn run(r: &mut Runner) {
             }
         });
     }
+    {
+        let gs = crate::fx::generic_stream(if quick { 200000 } else { 20000000 }, 109, -10, 130);
+        let ngs = gs.len();
+        r.notes.push(format!("generic stream for TwoFloat -> integers: {} operands of a fixed Weyl sequence (full-size mantissas in both words, exponents -10..130)", ngs));
+        r.par("generic stream: TwoFloat -> integers", ngs.div_ceil(4096), ngs as u64, |c, l| {
+            for i in (c * 4096)..((c + 1) * 4096).min(ngs) {
+                judge_to_all(gs[i], l, &rec, (1u64 << 49) + i as u64);
+            }
+        });
+    }
 }
